@@ -63,6 +63,9 @@ VERB_METHOD = {"should": "should", "should_only": "should_only", "should_not": "
 
 def _spec_side(builder, side: dict):
     kind, names = side["kind"], side["names"]
+    if side.get("dup") is not None:
+        # the same name listed twice in one call: the list still denotes the same set of modules (round 8)
+        names = list(names) + [names[side["dup"] % len(names)]]
     arg = names[0] if (len(names) == 1 and side.get("as_str", True)) else list(names)
     if kind == "named":
         return builder.are_named(arg)
